@@ -289,13 +289,41 @@ def _bool(it, self, args, kw):
     return VBool(t)
 
 
+def _lazy_seq_copy(it, v, is_tuple):
+    """list(x) / tuple(x) of a value of symbolic size (or None if x is not one)."""
+    from . import plain
+    if isinstance(v, plain.VPlain):
+        v = plain.resolve(it, v)
+    if isinstance(v, plain.VPList):
+        r = plain.VPList(it, v.name, v.elem_fn, is_tuple=is_tuple, shape=v.shape, n=v.n)
+        r.cache = v.cache
+        for a in ("child_kinds", "domain"):
+            if hasattr(v, a):
+                setattr(r, a, getattr(v, a))
+        return r
+    if isinstance(v, (plain.VPMap, plain.VPIter)):
+        m = v.m if isinstance(v, plain.VPIter) else v
+        what = v.what if isinstance(v, plain.VPIter) else "keys"
+        def elem(it_, hint, m=m, what=what):
+            k = m.key_fn(it_, hint + "@key")
+            if what == "keys":
+                return k
+            val = m.value_at(it_, k)
+            return val if what == "values" else VTuple([k, val])
+        return plain.VPList(it, m.name + f"@{what}", elem, is_tuple=is_tuple, n=m.n)
+    return v
+
+
 @handler("list")
 def _list(it, self, args, kw):
     if not args:
         return VList([])
     if isinstance(args[0], VSeq):
         return args[0]
-    return VList(it.iterate(args[0]))
+    v = _lazy_seq_copy(it, args[0], False)
+    if isinstance(v, VOpaque) and v.kind == "plist":
+        return v
+    return VList(it.iterate(v))
 
 
 @handler("tuple")
@@ -304,7 +332,92 @@ def _tuple(it, self, args, kw):
         return VTuple([])
     if isinstance(args[0], VNone):
         it.raise_(TypeError, "'NoneType' object is not iterable")
-    return VTuple(it.iterate(args[0]))
+    v = _lazy_seq_copy(it, args[0], True)
+    if isinstance(v, VOpaque) and v.kind == "plist":
+        return v
+    return VTuple(it.iterate(v))
+
+
+@handler("pmap.items", "pmap.keys", "pmap.values")
+def _pmap_view(it, self, args, kw):
+    from . import plain
+    raise OutOfSubset("pmap view")  # replaced below (needs the method name)
+
+
+def _pmap_view_named(what):
+    def h(it, self, args, kw):
+        from . import plain
+        return plain.VPIter(self, what)
+    return h
+
+
+for _w in ("items", "keys", "values"):
+    HANDLERS[f"pmap.{_w}"] = _pmap_view_named(_w)
+
+
+@handler("pmap.get")
+def _pmap_get(it, self, args, kw):
+    from . import plain
+    key = plain._hashable(it, args[0])
+    if it.branch(it.fresh_bool(f"absent_{self.name}").e):
+        return args[1] if len(args) > 1 else NONE
+    return self.value_at(it, key)
+
+
+@handler("pmap.pop")
+def _pmap_pop(it, self, args, kw):
+    from . import plain
+    key = plain._hashable(it, args[0])
+    if it.branch(it.fresh_bool(f"absent_{self.name}").e):
+        if len(args) > 1:
+            return args[1]
+        it.raise_(KeyError, "key")
+    return self.value_at(it, key)
+
+
+@handler("pmap.copy")
+def _pmap_copy(it, self, args, kw):
+    from . import plain
+    return plain.VPMap(it, self.name + "@copy", self.key_fn, self.val_fn, frozen=self.frozen, shape=self.shape)
+
+
+@handler("plist.append")
+def _plist_append(it, self, args, kw):
+    if self.shape is not None:
+        from . import shapes
+        ok = shapes.conforms(it, args[0], self.shape.elem if hasattr(self.shape, "elem") else self.shape)
+        shapes.note_obligation(it, f"invariant:{self.name.split('!')[0]}-append", ok, f"appended {args[0]!r} is not of the declared element shape")
+    return NONE
+
+
+@handler("plist.pop")
+def _plist_pop(it, self, args, kw):
+    if self.is_tuple:
+        it.raise_(AttributeError, "'tuple' object has no attribute 'pop'")
+    if not it.branch(self.n.e > 0):
+        it.raise_(IndexError, "pop from empty list")
+    r = self.elem_fn(it, f"{self.name}.pop()")
+    # the list is one shorter afterwards (its remaining elements stay arbitrary)
+    m = it.fresh_int(f"len_{self.name}", 0)
+    it.assume(m.e == self.n.e - 1)
+    self.n = m
+    self.cache = {}
+    return r
+
+
+@handler("plist.extend")
+def _plist_extend(it, self, args, kw):
+    raise OutOfSubset("extend of a list of symbolic length")
+
+
+@handler("plist.copy")
+def _plist_copy(it, self, args, kw):
+    return _lazy_seq_copy(it, self, self.is_tuple)
+
+
+@handler("plist.index", "plist.count")
+def _plist_index(it, self, args, kw):
+    raise OutOfSubset("index/count on a list of symbolic length")
 
 
 @handler("dict")
@@ -337,8 +450,14 @@ def _dict(it, self, args, kw):
 @handler("range")
 def _range(it, self, args, kw):
     vals = []
+    from . import plain
+    args = [plain.resolve(it, a) if isinstance(a, plain.VPlain) else a for a in args]
     for a in args:
-        if not isinstance(a, VInt) or a.conc is None:
+        if isinstance(a, VBool):
+            a = it.to_int(a)
+        if not isinstance(a, VInt):
+            it.raise_(TypeError, "object cannot be interpreted as an integer")
+        if a.conc is None:
             from . import elementwise
             return elementwise.symbolic_range(it, args)
         vals.append(a.conc)
@@ -675,7 +794,11 @@ def _str_replace(it, self, args, kw):
         t = R(self.e)
         it.assume(z3.Length(t) == z3.Length(self.e))
         return VStr(t)
-    raise OutOfSubset("str.replace on symbolic strings")
+    if all(isinstance(x, VStr) for x in (self, a, b)):
+        # general case: an uninterpreted function of the three strings (nothing but "it is a str" is known about the result)
+        R3 = z3.Function("STR_REPLACE", S, S, S, S)
+        return VStr(R3(self.e, a.e, b.e))
+    it.raise_(TypeError, "replace() argument must be str")
 
 
 @handler("str.split")
@@ -1819,9 +1942,29 @@ def _spec_key_data(it, self, args, kw):
     return args[0].f["data"]
 
 
-@handler("yaml.dump", "json.dumps")
+@handler("json.dumps")
+def _json_dumps(it, self, args, kw):
+    """json.dumps: TypeError unless the value is JSON-shaped (str keys; no bytes, tags or library objects)."""
+    v = args[0]
+    from . import plain, shapes
+    if _is_concrete(v):
+        import json
+        try:
+            return VStr(json.dumps(_to_native(v)))
+        except TypeError:
+            it.raise_(TypeError, "Object is not JSON serializable")
+        except Exception:
+            pass
+    if not shapes.conforms(it, v, shapes.JSON):
+        # some value of this shape is not serialisable
+        if it.branch(it.fresh_bool("json_dumps_type_error").e):
+            it.raise_(TypeError, "Object is not JSON serializable")
+    return it.fresh_str("dumped")
+
+
+@handler("yaml.dump")
 def _yaml_dump(it, self, args, kw):
-    """Only used for messages / dict keys of non-string keys; an unconstrained string unless the argument is concrete."""
+    """Only used for messages; an unconstrained string unless the argument is concrete."""
     v = args[0]
     try:
         from .verify import concretize
